@@ -437,7 +437,12 @@ func (f *Federation) eventStreamHandler(sess *session, in *Event) (ack *Ack) {
 		pubMsg := eventToMessage(msg)
 		f.publisher.Publish(pubMsg)
 		if pubMsg.Retained {
-			f.retainedStore.AddOrReplace(pubMsg)
+			// a retained message with an empty payload clears the retained message of the topic [MQTT-3.3.1-6]
+			if len(pubMsg.Payload) == 0 {
+				f.retainedStore.Remove(pubMsg.Topic)
+			} else {
+				f.retainedStore.AddOrReplace(pubMsg)
+			}
 		}
 		return &Ack{EventId: eventID}
 	}
